@@ -292,24 +292,33 @@ func stringCat(s string) string {
 
 var symAlphabet = []string{"a", "1", "-", "+", ".", ":", "e", "%"}
 
-func spellingAt(idx int64) string {
+// symAlphabetWide: every miscWordSymbols rune, a letter, a digit, two
+// non-ASCII letters and the package separator (short spellings only).
+var symAlphabetWide = []string{"a", "1", "\u00e9", "\u65e5", ".", "_", "+", "-", "*", "/", "=", "<", ">", "!", "&", "~", "%", "?", "$", ":"}
+
+func spellingOver(alpha []string, idx int64) string {
 	var d [8]int
-	ds := seqAt(len(symAlphabet), idx+1, d[:0]) // +1: skip the empty spelling
+	ds := seqAt(len(alpha), idx+1, d[:0]) // +1: skip the empty spelling
 	var b strings.Builder
 	for _, x := range ds {
-		b.WriteString(symAlphabet[x])
+		b.WriteString(alpha[x])
 	}
 	return b.String()
 }
 
-func spellingCount(maxLen int) int64 { return seqCount(len(symAlphabet), maxLen) - 1 }
+func spellingAt(idx int64) string { return spellingOver(symAlphabet, idx) }
+
+func spellingCountOver(alpha []string, maxLen int) int64 { return seqCount(len(alpha), maxLen) - 1 }
+
+func spellingCount(maxLen int) int64 { return spellingCountOver(symAlphabet, maxLen) }
 
 // shape keeps classes coarse: short spellings verbatim, longer ones by their ends.
 func shape(s string) string {
-	if len(s) <= 2 {
+	rs := []rune(s)
+	if len(rs) <= 2 {
 		return s
 	}
-	return s[:1] + "~" + s[len(s)-1:]
+	return string(rs[:1]) + "~" + string(rs[len(rs)-1:])
 }
 
 // ---------------------------------------------------------------------------
